@@ -221,7 +221,9 @@ def parse_vspec(path):
 _GEN_DEFAULTS = {"MAX_ALLOWED_HSS_LEVELS": ("HBS_LMS_MAX_ALLOWED_HSS_LEVELS", "8", None),
                  # build.rs: MIN_WINTERNITZ_PARAMETER = min of the list, MAX_TREE_HEIGHT = max of the list
                  "MIN_WINTERNITZ_PARAMETER": ("HBS_LMS_WINTERNITZ_PARAMETERS", "1, 1, 1, 1, 1, 1, 1, 1", min),
-                 "MAX_TREE_HEIGHT": ("HBS_LMS_TREE_HEIGHTS", "25, 25, 25, 25, 25, 25, 25, 25", max)}
+                 "MAX_TREE_HEIGHT": ("HBS_LMS_TREE_HEIGHTS", "25, 25, 25, 25, 25, 25, 25, 25", max),
+                 "TREE_HEIGHTS": ("HBS_LMS_TREE_HEIGHTS", "25, 25, 25, 25, 25, 25, 25, 25", "array"),
+                 "WINTERNITZ_PARAMETERS": ("HBS_LMS_WINTERNITZ_PARAMETERS", "1, 1, 1, 1, 1, 1, 1, 1", "array")}
 
 
 def gen_const(name):
@@ -235,6 +237,9 @@ def gen_const(name):
                 val = m.group(1).strip()
     except OSError:
         pass
+    if red == "array":
+        xs = [x.strip() for x in val.split(",")]
+        return "pub const %s: [usize; %d] = [%s]; // generated constant (build.rs), default configuration" % (name, len(xs), ", ".join(xs))
     if red is not None:
         val = str(red(int(x) for x in val.split(",")))
     return "pub const %s: usize = %s; // generated constant (build.rs), default configuration" % (name, val)
